@@ -320,6 +320,7 @@ type LayerOpts struct {
 func Layers(s *core.Source, o LayerOpts) mvt.Layers {
 	var ls mvt.Layers
 	var last *geojson.Feature // the feature drawn before this one, in this layer or an earlier one
+	anyRepetitive := false
 	s.Repeat(0, 3, 3, "layer", func(i int) {
 		l := &mvt.Layer{
 			Name:    []string{"roads", "water", "", "poi"}[s.Intn(4, "lname")],
@@ -372,7 +373,9 @@ func Layers(s *core.Source, o LayerOpts) mvt.Layers {
 				f.Properties[fmt.Sprintf("k%03d", i)] = float64(i) + 0.5
 			}
 		}
-		if o.Repetitive && len(l.Features) > 0 && s.Chance(1, 300, "fat") {
+		if o.Repetitive && len(l.Features) > 0 && !anyRepetitive && s.Chance(1, 300, "fat") {
+			// (not once a layer holds a feature a thousand times over: features and their property maps are
+			// shared across layers, and 1200 copies of a 17000-property feature take minutes to marshal)
 			// a tile well over 64 KiB: several long distinct values, or tens of thousands of distinct values
 			f := l.Features[0]
 			if f.Properties == nil {
@@ -397,6 +400,7 @@ func Layers(s *core.Source, o LayerOpts) mvt.Layers {
 		if o.Repetitive && !fat && len(l.Features) > 0 && s.Chance(1, 120, "repetitive") {
 			// real tiles are repetitive: the same feature many times over (compresses far better than 40:1)
 			n := []int{100, 1200}[s.Intn(2, "reps")]
+			anyRepetitive = true
 			f := l.Features[len(l.Features)-1]
 			for i := 0; i < n; i++ {
 				l.Features = append(l.Features, f)
